@@ -12,7 +12,7 @@ DRV = "tree"
 CRATE = "hx-run"
 
 RULE = ("(i) synthetic registries whose entries take runtime arguments through the BenchArgs/BenchArgsRunner API exactly as the macro "
-        "emits it, over 12 argument containers (Vec<i64>, &[i64], Range, Vec<u8>, Debug-only items, chars, Vec<String>, Vec<&str>, "
+        "emits it, over 15 argument containers (items rendered as the empty string, &str items that are prefixes of one buffer, Vec<i64>, &[i64], Range, Vec<u8>, Debug-only items, chars, Vec<String>, Vec<&str>, "
         "&[&str], slice::Iter<&str>, Box<str>, Cow<str>), lengths 0..30 with duplicates, plain and generic (shared list) owners; the "
         "benchmark body logs the value it received and the harness pairs it with the row label printed by the --test run; x all seven "
         "sort settings x filters keeping a strict subset (exact label paths or literal substrings) x ignore flags; (ii) generated crates "
@@ -101,6 +101,10 @@ def args_tour(crate):
                 vals = [(7 * i * i - 40 * i + 3) % 211 - 100 for i in range(ln)] if kind != "arr_u8" else [(37 * i + 5) % 256 for i in range(ln)]
             elif kind == "arr_char":
                 vals = ["abcxyzQ"[i % 7] for i in range(ln)]
+            elif kind == "prefix_str":
+                vals = [P.PREFIX_TEXT[:(3 * i + 2) % (len(P.PREFIX_TEXT) + 1)] for i in range(ln)]
+            elif kind == "blank":
+                vals = [i * 3 - 2 for i in range(ln)]
             else:
                 vals = ["s%d" % ((i * 7) % 31) if i % 3 else P.STRV[i % len(P.STRV)] for i in range(ln)]
             items.append(F("k%d_%s" % (n, kind), args=(kind, vals), bencher=(n % 2 == 0)))
